@@ -76,7 +76,7 @@ type weighted struct {
 }
 
 var opWeights = []weighted{
-	{"w.put", 7}, {"w.putnew", 2}, {"w.putmany", 1}, {"w.secret", 2}, {"w.crown", 2}, {"w.insertm", 3}, {"w.delete", 2},
+	{"w.put", 7}, {"w.putnew", 2}, {"w.putmany", 1}, {"w.secret", 2}, {"w.crown", 2}, {"w.insertm", 3}, {"w.rmw", 3}, {"w.delete", 2},
 	{"r.get", 7}, {"r.exists", 2}, {"r.query", 4}, {"r.sub", 2}, {"r.clearcache", 1}, {"r.insert", 3}, {"r.setabs", 1},
 	{"r.setrel", 1}, {"r.secret", 1}, {"r.crown", 1}, {"r.delete", 2}, {"r.put", 2}, {"r.putnew", 1}, {"r.putmany", 1}, {"r.purge", 1}, {"r.dwput", 2}, {"r.dwflush", 1}, {"r.dwputmany", 1},
 	{"api.get", 3}, {"api.query", 2}, {"api.qsub", 1}, {"api.sub", 1}, {"api.create", 1}, {"api.update", 1}, {"api.insert", 1}, {"api.delete", 1},
